@@ -96,17 +96,17 @@ def install_entry_points():
             eps[nm] = EntryPoint(name=nm, value=f"harness.c14:{target}", group="asphalt.components")
 
 
-HARD_KINDS = ["absent", "scalar", "dict"]
-EXT_KINDS = ["absent", "scalar", "None", "dict"]
+HARD_KINDS = ["absent", "scalar", "dict", "the int 1"]
+EXT_KINDS = ["absent", "scalar", "None", "dict", "True (equal to 1, but another value)"]
 SPELL = ["class object", "'module:attr' reference", "entry point name", "omitted (alias names the type)", "'module:attr' reference with a dotted attribute path"]
 
 
 def hard_val(kind, tag):
-    return {1: f"hard-{tag}", 2: {"x": f"hard-{tag}-x", "y": {"deep": f"hard-{tag}-y", "keep": 1}}}.get(kind)
+    return {1: f"hard-{tag}", 2: {"x": f"hard-{tag}-x", "y": {"deep": f"hard-{tag}-y", "keep": 1}}, 3: 1}.get(kind)
 
 
 def ext_val(kind, tag):
-    return {1: f"ext-{tag}", 2: None, 3: {"y": {"deep": f"ext-{tag}-y"}, "z": f"ext-{tag}-z"}}.get(kind)
+    return {1: f"ext-{tag}", 2: None, 3: {"y": {"deep": f"ext-{tag}-y"}, "z": f"ext-{tag}-z"}, 4: True}.get(kind)
 
 
 def ref_merge(o, v):
@@ -136,6 +136,9 @@ def fn(a, tier):
     deep, kidnone = (1, 0) if tier == "quick" else (pick(a["deep"], 2), pick(a["kidnone"], 2))
     nestedstart = pick(a["nestedstart"], 2)
     innerctx = pick(a["innerctx"], 2)
+    if (h1, e1, h2, e2) == (1, 1, 0, 0) and innerctx:
+        # in this corner the two scalars are the int 1 (hard-coded) and True (external): equal, but another value - it must still win
+        h1, e1 = 3, 4
     # alias: with spelling "omitted" the alias (its part before '/') must itself name the type
     base = "c14leaf" if spelling == 3 else "kid"
     alias = f"{base}/{suffix}" if slash else base
@@ -209,8 +212,10 @@ def fn(a, tier):
     if nestedstart:
         exp["SubRoot"] = [{}]
         exp["SubWorker"] = [{}]
-    if inits != exp:
-        bad = sorted(k for k in set(inits) | set(exp) if inits.get(k) != exp.get(k))
+    from .c17 import same as _same  # structural equality that tells 1 from True
+
+    if not _same(inits, exp):
+        bad = sorted(k for k in set(inits) | set(exp) if not _same(inits.get(k), exp.get(k)))
         return FAIL(f"constructor-kwargs:{bad}:h1={HARD_KINDS[h1]}:e1={EXT_KINDS[e1]}:h2={HARD_KINDS[h2]}:e2={EXT_KINDS[e2]}:deep={deep}",
                     f"constructors received {inits}, expected {exp}", summary)
     # default-name remapping: in start() only, for the default name only, for the component's own alias only
@@ -251,18 +256,20 @@ import anyio  # noqa: E402
 
 from asphalt.core import current_context  # noqa: E402
 
-PH_TYPES = tuple(type(f"PhaseRes{i}", (), {}) for i in range(5))
+PH_TYPES = tuple(type(f"PhaseRes{i}", (), {}) for i in range(6))
 PHASES = ["prepare()", "while its child is starting (from another task, through the component's context)", "start()",
           "after start_component() returned (from another task, through the component's context)"]
 
 
 def phase_params(tier):
-    return [P("slash", 0, 1), P("named", 0, 1)]
+    return [P("slash", 0, 1), P("named", 0, 1), P("concurrent", 0, 1)]
 
 
 @guard
 def phase_fn(a, tier):
     slash, named = pick(a["slash"], 2), pick(a["named"], 2)
+    # start() sets the component up concurrently: one task starts a service task with a slow start-up, another adds a default-named resource meanwhile
+    concurrent = pick(a["concurrent"], 2)
     holder = {}
 
     class Child(Component):
@@ -282,6 +289,22 @@ def phase_fn(a, tier):
             add_resource(object(), types=[PH_TYPES[2]])
             if named:
                 add_resource(object(), "explicit", [PH_TYPES[4]])
+            if concurrent:
+                from asphalt.core import start_service_task
+
+                async def service(*, task_status):
+                    for _ in range(3):
+                        await anyio.sleep(0)
+                    task_status.started()
+                    await anyio.sleep_forever()
+
+                async def adder():
+                    await anyio.sleep(0)
+                    add_resource(object(), types=[PH_TYPES[5]])
+
+                async with anyio.create_task_group() as tg:
+                    tg.start_soon(start_service_task, service, "slow service")
+                    tg.start_soon(adder)
 
     class Top(Component):
         def __init__(self):
@@ -313,9 +336,11 @@ def phase_fn(a, tier):
     if exc is not None:
         return FAIL(f"phase:raised:{type(exc).__name__}", repr(exc), summary)
     suffix = "primary" if slash else "default"
-    exp = [["default"], ["default"], [suffix], ["default"], ["explicit"] if named else []]
+    exp = [["default"], ["default"], [suffix], ["default"], ["explicit"] if named else [], [suffix] if concurrent else []]
     if out["names"] != exp:
         bad = [PHASES[i] for i in range(4) if out["names"][i] != exp[i]]
+        if out["names"][5] != exp[5]:
+            bad.append("in start(), from a task of its own, while the component's start_service_task() call was pending")
         return FAIL(f"phase:default-named-resource-remapped-outside-start:{bad}" if bad else "phase:explicit-name", f"got {out['names']} expected {exp}", summary)
     return OK(summary, True)
 
